@@ -76,8 +76,9 @@ type call struct {
 	MisClass string // reference comparison, "" = equal
 	MisText  string
 	// Latest
-	N uint64
-	H []byte
+	N     uint64
+	H     []byte // value at return time
+	HLive []byte // the returned slice itself (must never change afterwards)
 	// exchanges issued by this call, in order
 	Exs []*exch
 	key string
@@ -275,7 +276,7 @@ func execJob(j job, ch vrt.Chooser, states *vrt.StateSet, trace bool) (res execR
 				k.Err = err.Error()
 				return
 			}
-			k.OK, k.N, k.H = true, n, append([]byte(nil), hs...)
+			k.OK, k.N, k.H, k.HLive = true, n, append([]byte(nil), hs...), hs
 		}
 		var ts []*vrt.Thread
 		for i := range progs {
